@@ -66,12 +66,84 @@ package query
 // that only parseExprList lifts into the enclosing group. A negation must never
 // wrap such a placeholder: it would survive into Parse's result and crash
 // printing, searching and the wire conversion. Only this assertion is under
-// contract in parseExpr (its string handling is exempt: may_panic).
+// contract in parseExpr besides slice bounds, nil dereferences and progress.
 //@ func query.parseExpr
-//@   may_panic
 //@   loop 1:
-//@     invariant true
-//@   assert at alloc:Not: !typeis(subQ, "*caseQ") && !(typeis(subQ, "*Type") && as(subQ, "*Type").Child == nil)
+//@     invariant 0 <= len(b) && len(b) <= len(in)
+//@     decreases len(b)
+//@   ensures result2 == nil ==> 0 <= result1 && result1 <= len(in)
+//@   ensures result2 == nil && result0 != nil ==> result1 >= 1
+//@   ensures notypednil(result0)
+//@   ensures !typeis(result0, "*orOperator") && !typeis(result0, "*caseScopeQ")
+//@   assert at alloc:Not: !typeis(subQ, "*caseQ") && !typeis(subQ, "*orOperator") && !typeis(subQ, "*caseScopeQ") && !(typeis(subQ, "*Type") && as(subQ, "*Type").Child == nil)
+
+// The list parser consumes at most its input, whatever it returns, and each
+// round of its main loop consumes at least one byte.
+//@ func query.parseExprList
+//@   flag notypednil=true
+//@   loop 1:
+//@     invariant 0 <= len(b) && len(b) <= len(in)
+//@     decreases len(b)
+//@   loop 2:
+//@     invariant 0 <= len(b) && len(b) <= len(outer(b))
+//@     decreases len(b)
+//@   ensures 0 <= result1 && result1 <= len(in)
+
+// The regexp front end (regexp/syntax parsing, simplification, capture
+// rewriting) and the language table are outside the contracts: assumed to
+// return a non-nil query or an error.
+//@ func query.RegexpQuery
+//@   trusted
+//@   ensures result1 == nil ==> result0 != nil
+//@   ensures notypednil(result0)
+//@   ensures !typeis(result0, "*orOperator") && !typeis(result0, "*caseScopeQ") && !typeis(result0, "*caseQ") && !typeis(result0, "*Type")
+
+//@ func languages.GetLanguageByNameOrAlias
+//@   trusted
+//@   ensures true
+//@   assigns nothing
+
+//@ func query.parseOperators
+//@   loop 1:
+//@     invariant top != nil && cur != nil
+//@   ensures result1 == nil ==> typeis(result0, "*Or") && result0 != nil
+//@   ensures notypednil(result0)
+
+// ---------------------------------------------------------------------------
+// C07: the tokenizer never indexes out of bounds and always makes progress
+// ---------------------------------------------------------------------------
+
+// Callers pass a slice that starts with the opening quote. On success the
+// literal consumed at least both quotes and no more than the input.
+//@ func query.parseStringLiteral
+//@   requires len(in) >= 1
+//@   loop 1:
+//@     invariant 0 <= len(left) && len(left) <= len(in) - 1 && !found
+//@     invariant lit == nil || fresh(lit)
+//@     assigns nothing
+//@     decreases len(left)
+//@   ensures result2 == nil ==> 2 <= result1 && result1 <= len(in)
+//@   assigns nothing
+
+// setType re-slices Text by the keyword prefix it found on Input; that the
+// text is at least as long as the keyword is a content fact about the
+// tokenizer (keywords consist of plain characters, which are copied one to
+// one): assumed, not verified.
+//@ func query.(*token).setType
+//@   trusted
+//@   requires t != nil
+//@   ensures len(t.Input) == old(len(t.Input))
+//@   assigns t.Text, t.Type
+
+// No precondition on the bytes. A token, if one is returned, consumed at
+// least one and at most all of the input bytes (the parser advances by
+// len(tok.Input)).
+//@ func query.nextToken
+//@   loop 1:
+//@     invariant 0 <= len(left) && len(left) <= len(in) && len(in) >= 1
+//@     invariant len(cur.Text) > 0 ==> len(left) < len(in)
+//@     decreases len(left)
+//@   ensures result0 != nil ==> 1 <= len(result0.Input) && len(result0.Input) <= len(in)
 
 // ---------------------------------------------------------------------------
 // C24 / C07: decoding a wire query is total
